@@ -610,7 +610,14 @@ def b_len(ex, v):
             acc = ops.binop(ex, "+", acc, (1 if c else 0) if isinstance(c, bool) else ops.ite(ex, unwrap_bool(c), 1, 0))
         return acc
     if isinstance(v, SymSetV):
-        raise Unsupported("len of a symbolic set")
+        items = v.seq.concrete_items()
+        acc = 0
+        for i, x in enumerate(items):
+            first = True
+            for y in items[:i]:
+                first = ops.and_(ex, first, ops.compare(ex, "!=", x, y))
+            acc = ops.binop(ex, "+", acc, (1 if first else 0) if isinstance(first, bool) else ops.ite(ex, unwrap_bool(first), 1, 0))
+        return acc
     if isinstance(v, MapV):
         if v.is_concrete():
             # keys may be symbolic but were deduplicated on insertion
@@ -762,9 +769,18 @@ class RangeSetV:
         self.lo, self.hi = lo, hi
 
 
+class SortedSetV:
+    """sorted(set(xs)) for symbolic xs; only compared with xs itself (xs == sorted(set(xs)) <=> xs strictly ascending)"""
+
+    def __init__(self, seq):
+        self.seq = seq
+
+
 def b_sorted(ex, v, **kw):
     if kw:
         raise Unsupported("sorted with key/reverse")
+    if isinstance(v, SymSetV):
+        return SortedSetV(v.seq)
     items = ops.iter_concrete(ex, v)
     if all(not has_sym(x) and ops.is_concrete_scalar(x) for x in items):
         try:
